@@ -458,6 +458,9 @@ extern struct env_bundle_t env;
 extern bool syntaxerror, eofseen;
 extern int yymore_used, reject, real_reject, continued_action, in_rule;
 
+/* rule_finished - true once finish_rule() has run for the current rule */
+extern int rule_finished;
+
 /* Variables used in the flex input routines:
  * datapos - characters on current output line
  * dataline - number of contiguous lines of data in current data
